@@ -20,7 +20,7 @@ import z3
 from mirsym import engine
 from mirsym.engine import Inconclusive
 from mirsym.interp import Agg, Var, Ref, State, Opaque, UNIT, to_z3, is_z3, Unsupported
-from .common import rvec, none, some, hyps_of
+from .common import rvec, none, some, hyps_of, real_cycle
 from . import facerule as FR
 from .buildrules import rec, pcs
 
@@ -59,7 +59,7 @@ def mk_cell(planes, verts, boundary_n, loc=(F(1, 2), F(1, 2), F(1, 2))):
           for n, p in planes]
     vs = [engine.make_struct('src/voronoi/convex_cell.rs', 'Vertex', loc=Agg('DVec3', [F(x) for x in loc]), dual=Agg('array', dual), radius2=F(1))
           for dual, loc in verts]
-    cyc = engine.make_struct('src/simple_cycle.rs', 'SimpleCycle', ptrs=Agg('Vec', list(range(boundary_n))), start=0, len=0)
+    cyc = real_cycle(engine.load_mir('ibig')[0], boundary_n)
     return engine.make_struct('src/voronoi/convex_cell.rs', 'ConvexCell', idx=0, loc=Agg('DVec3', [F(x) for x in loc]), clipping_planes=Agg('Vec', hs),
                               vertices=Agg('Vec', vs), faces=none(), face_vertex_connections=none(), boundary=cyc,
                               safety_radius=F(4), dimensionality=FR.dimv('ThreeD'), _phantom=Agg('zst:PhantomData', ()))
